@@ -69,8 +69,8 @@ def dyadic_cases(draw, tier="quick"):
 
 
 @st.composite
-def free_cases(draw, tier="quick"):
-    specs = draw(B.contract_specs(max_n=3))
+def free_cases(draw, tier="quick", wide=False):
+    specs = draw(B.contract_specs(min_n=5, max_n=10)) if wide else draw(B.contract_specs(max_n=3))
     n = len(specs)
     prior = draw(st.lists(st.one_of(st.just(0.0), st.floats(-1.0, 1.0), st.sampled_from([0.25, 0.5, -0.5])), min_size=n, max_size=n))
     thr = draw(st.sampled_from([0.0, 0.05, 0.125, 0.25, 0.5]))
@@ -258,4 +258,5 @@ def run_filter(case, exact):
 PARTS = [
     Part("dyadic", strategy=lambda tier: dyadic_cases(tier), run=lambda c: run_filter(c, True), quick=5000, thorough=300000),
     Part("free", strategy=lambda tier: free_cases(tier), run=lambda c: run_filter(c, False), quick=3000, thorough=200000),
+    Part("wide", strategy=lambda tier: free_cases(tier, wide=True), run=lambda c: run_filter(c, False), quick=800, thorough=60000),   # 5-10 contracts
 ]
